@@ -261,7 +261,8 @@ class ProgGen:
         self.add({"id": i, "op": kind, "rounds": r.choice([1, 2, 3, 4]), "init": r.choice([0, 1, 5]),
                   "lfold": fam[0], "gfold": fam[1], "cond": r.choice(["always", "always", "lt1000", "lt100"]),
                   "body": body, "out": b.ref, "in": [s.ref]})
-        outs = [St(f"{i}.state", ordered=True, repl="one")]
+        # the final state leaves the leader through a random split: a fresh unlimited block
+        outs = [St(f"{i}.state", ordered=False, repl="unlimited")]
         if kind == "iterate":
             outs.append(St(f"{i}.out", ordered=False, repl="unlimited"))
         return outs
